@@ -86,10 +86,12 @@ def extract(repo=REPO, cfg="dev", no_cache=False):
             raise SystemExit("fact files missing: got %s" % sorted(files))
         with open(os.path.join(out, "OK"), "w") as fh:
             fh.write("%s %.1fs\n" % (nonce, time.time() - t0))
-        # prune old caches (keep 6 most recent)
+        # prune old caches (keep the 6 most recent and whatever was extracted in the last 45 minutes: parallel runs over
+        # many scratch copies would otherwise evict each other's facts between two checks of the same copy)
         alld = sorted(glob.glob(os.path.join(WORK, "facts", "*")), key=os.path.getmtime)
         for d in alld[:-6]:
-            shutil.rmtree(d, ignore_errors=True)
+            if time.time() - os.path.getmtime(d) > 45 * 60:
+                shutil.rmtree(d, ignore_errors=True)
         return out, False
     finally:
         fcntl.flock(lock, fcntl.LOCK_UN)
